@@ -171,12 +171,13 @@ package bfe_tls
 //@   modifies hs.hello.alpnProtocol, hs.c.clientProtocol
 
 //@ func (*serverHandshakeState).checkForResumption
-//@   props C44
+//@   props C44,C41
 //@   modifies *
 //@   ensures[resumed_session_exists] result0 ==> hs.sessionState != nil
 //@   ensures[never_above_the_offered_version] result0 ==> hs.sessionState.vers <= hs.clientHello.vers
 //@   ensures[suite_still_offered_by_the_client] result0 ==> (exists k int :: 0 <= k && k < len(hs.clientHello.cipherSuites) && hs.clientHello.cipherSuites[k] == hs.sessionState.cipherSuite)
 //@   ensures[suite_still_supported_by_the_server] result0 ==> hs.suite != nil && hs.suite.id == hs.sessionState.cipherSuite
+//@   ensures[suite_still_enabled_by_the_server_configuration] result0 && hs.c.config.CipherSuites != nil ==> (exists k int :: 0 <= k && k < len(hs.c.config.CipherSuites) && hs.c.config.CipherSuites[k] == hs.sessionState.cipherSuite)
 //@   ensures[required_client_certificate_present] result0 && (hs.c.clientAuth == RequireAnyClientCert || hs.c.clientAuth == RequireAndVerifyClientCert) ==> len(hs.sessionState.certificates) != 0
 //@   ensures[no_client_certificate_when_not_requested] result0 && len(hs.sessionState.certificates) != 0 ==> hs.c.clientAuth != NoClientCert
 //@   loop 1 invariant !cipherSuiteOk
